@@ -1086,7 +1086,8 @@ func runC05(c *Ctx) {
 					continue
 				}
 				phi, isPhi := f.X.(*ssa.Phi)
-				lc, isLen := f.Y.(*ssa.Call)
+				// the bound: len(config.Pools), directly or as the argument the helper is given for its count parameter
+				lc, isLen := Resolve(f.Y).(*ssa.Call)
 				if !isPhi || !isLen || !IsBuiltinCall(lc, "len") || !isPools(lc.Call.Args[0]) || len(phi.Edges) != 2 {
 					continue
 				}
